@@ -1,21 +1,27 @@
 (* C08 — the handshake gate of a Pyro5 daemon, as a per-connection machine.
 
    Anchors: Pyro5/server.py Daemon._handshake / validateHandshake / handleRequest,
-   svr_threads.py ClientConnectionJob.__call__ / handleConnection,
-   svr_multiplex.py SocketServer_Multiplex.events / _handleConnection / handleRequest.
+   svr_threads.py ClientConnectionJob.__call__ / handleConnection / denyConnection,
+   SocketServer_Threadpool.events, svr_multiplex.py SocketServer_Multiplex.events /
+   _handleConnection / handleRequest / loop.
 
-   A connection is NotHandshaken | Accepted | Closed.  Input: a list of events, each
-   "connection c delivers message m", where m is the *classification* of a wire message
-   (type, well-formed?, serializer known?, what the payload decodes to, what the
-   validator / the invoked method would do).  Output: per event a list of
-   Reply c kind seq serializer | Exec c token | SockClosed c.
+   A connection is NotHandshaken | Accepted | Closed | Abandoned.  Input: a list of events,
+   each "on connection c this happens": a complete wire message arrives (given by its
+   *classification*: type, well-formed?, serializer known?, what the payload decodes to,
+   what the validator / the invoked method would do), or the peer goes away (EOF, or a
+   message cut short and then a disconnect), or the peer stays silent for longer than
+   COMMTIMEOUT.  A connection may have been *denied* by the thread-pool server (no free
+   worker when it arrived).  Output: per event a list of
+   Reply c kind seq serializer | Exec c target token | SockClosed c.
 
-   The structural facts of the source the machine depends on (which message types the
-   two recv_stub calls accept, whether the request loop / the selector registration is
-   guarded by the handshake result, whether _handshake is truthy only for CONNECTOK) are
-   parameters (record [cfg]); tools/gen/gen_handshake.py regenerates their values from
-   the source on every run (Gen/GenHandshake.v).  Definitions only — proofs are in
-   Proofs/HandshakeGate.v. *)
+   Abandoned = the server neither reads from nor closes the socket any more: the outcome
+   when validateHandshake raises a BaseException-only class (SystemExit, KeyboardInterrupt):
+   on the thread server the worker thread dies with the socket open; on the multiplex server
+   the exception ends the daemon's request loop, so EVERY other connection is abandoned.
+
+   The structural facts of the source the machine depends on are parameters (record [cfg]);
+   tools/gen/gen_handshake.py regenerates their values from the source on every run
+   (Gen/GenHandshake.v).  Definitions only — proofs are in Proofs/HandshakeGate.v. *)
 From Coq Require Import List NArith Arith Bool.
 Import ListNotations.
 
@@ -31,8 +37,9 @@ Record cfg := {
   c_ok_only : bool;              (* _handshake returns truthy only when it answered CONNECTOK *)
   c_marshal : N;                 (* serializer id used before the request's own is known *)
   (* quirk switches = behaviour of the unrepaired code (findings of C08) *)
-  q_silent_unknown_ser : bool;   (* CONNECT with an unknown serializer id: closed without CONNECTFAIL *)
-  q_silent_validator_cce : bool  (* validator raises ConnectionClosedError: closed without CONNECTFAIL *)
+  q_silent_unknown_ser : bool;   (* CONNECT with an unknown serializer id: closed without CONNECTFAIL (fixed) *)
+  q_silent_validator_cce : bool; (* validator raises ConnectionClosedError: closed without CONNECTFAIL (fixed) *)
+  q_abort_unanswered : bool      (* validator raises a BaseException-only class: no answer, socket not closed (open) *)
 }.
 
 (* ---- classification of one wire message ---- *)
@@ -44,7 +51,9 @@ Inductive wf := WfOk | WfBadHeader | WfBadBody.
 (* what the daemon's validateHandshake does when called for this connection *)
 Inductive vb :=
 | VAccept (answer_serialisable : bool)   (* returns a value (any value, truthy or not) *)
-| VRaise (conn_closed_class : bool).     (* raises an Exception; flag: it is a ConnectionClosedError *)
+| VRaise (conn_closed_class : bool)      (* raises an Exception; flag: it is a ConnectionClosedError *)
+| VAbort (keyboard_interrupt : bool).    (* raises a BaseException that is not an Exception; flag: it is a
+                                            KeyboardInterrupt, which the multiplex server's loop catches to stop *)
 
 Inductive objref := ObjKnown | ObjUnknown | ObjBad.   (* ObjBad: unhashable id -> TypeError on lookup *)
 
@@ -60,35 +69,54 @@ Inductive decfail := DfKeep | DfCloseReply | DfCloseSilent.
 (* loadsCall raises: an ordinary exception (error reply, connection kept) / SerializeError or
    SecurityError (error reply, closed) / another CommunicationError (no reply, closed) *)
 Inductive meth := MUnknown | MReturns | MRaises.
+(* the registered object a call addresses: an application object, or the daemon's own
+   built-in Pyro.Daemon object (ping, registered, info, get_metadata) *)
+Inductive target := TUser | TDaemon.
 Inductive call_payload :=
 | CpFail (d : decfail)
-| CpCall (obj_known : bool) (m : meth) (tok : N).
+| CpCall (obj_known : bool) (t : target) (m : meth) (tok : N).
 
 Record msg := {
   m_type : N; m_wf : wf; m_ser : N; m_ser_known : bool; m_seq : N; m_oneway : bool;
   m_hs : hs_payload; m_call : call_payload; m_val : vb }.
 
-Record event := { e_conn : nat; e_msg : msg }.
+Inductive input :=
+| InMsg (m : msg)     (* a complete message arrives *)
+| InPeerGone          (* EOF / message cut short then disconnect (ConnectionClosedError while receiving) *)
+| InSilence.          (* nothing arrives within COMMTIMEOUT (TimeoutError while receiving) *)
+
+(* e_denied: the thread-pool server had no free worker when this connection arrived (only
+   looked at for the connection's first event, only on the thread server) *)
+Record event := { e_conn : nat; e_in : input; e_denied : bool }.
 
 (* ---- outputs ---- *)
-Inductive reason := RsnValidator | RsnUnknownObject | RsnOther.
+Inductive reason := RsnValidator | RsnUnknownObject | RsnDenied | RsnOther.
 Inductive rkind := RConnectOk | RConnectFail (r : reason) | RPong | RResult | RError.
 Inductive out :=
 | Reply (c : nat) (k : rkind) (seq : N) (ser : N)
-| Exec (c : nat) (tok : N)
+| Exec (c : nat) (t : target) (tok : N)
 | SockClosed (c : nat).
 
-Inductive cstate := NotHandshaken | Accepted | Closed.
+Inductive cstate := NotHandshaken | Accepted | Closed | Abandoned.
 
 Definition memN (x : N) (l : list N) : bool := existsb (N.eqb x) l.
 
+Inductive hs_outcome := HsAccept | HsRefuse | HsAbort (kbd : bool).
+
+(* is the validator called for this first message *)
+Definition validator_reached (g : cfg) (m : msg) : bool :=
+  match m_wf m with WfOk => true | _ => false end &&
+  memN (m_type m) (c_first_types g) && m_ser_known m &&
+  match m_hs m with HsNoObjectKey | HsFull _ => true | _ => false end.
+
 (* ---- the first message of a connection: Daemon._handshake ----
-   result: the answer sent (kind, seq, serializer id) if any, and whether the handshake was accepted *)
-Definition hs_result (g : cfg) (m : msg) : option (rkind * N * N) * bool :=
-  let fail_early := (Some (RConnectFail RsnOther, 0%N, c_marshal g), false) in
-  let fail r := (Some (RConnectFail r, m_seq m, m_ser m), false) in
-  let silent := (@None (rkind * N * N), false) in
+   result: the answer sent (kind, seq, serializer id) if any, and the outcome *)
+Definition hs_result (g : cfg) (m : msg) : option (rkind * N * N) * hs_outcome :=
+  let fail_early := (Some (RConnectFail RsnOther, 0%N, c_marshal g), HsRefuse) in
+  let fail r := (Some (RConnectFail r, m_seq m, m_ser m), HsRefuse) in
+  let silent := (@None (rkind * N * N), HsRefuse) in
   let validator_raised cc := if cc && q_silent_validator_cce g then silent else fail RsnValidator in
+  let validator_aborted kbd := if q_abort_unanswered g then (@None (rkind * N * N), HsAbort kbd) else fail RsnValidator in
   match m_wf m with
   | WfBadHeader => fail_early
   | _ =>
@@ -98,22 +126,40 @@ Definition hs_result (g : cfg) (m : msg) : option (rkind * N * N) * bool :=
     | _ =>
       if negb (m_ser_known m) then
         (if q_silent_unknown_ser g then silent
-         else (Some (RConnectFail RsnOther, m_seq m, c_marshal g), false))
+         else (Some (RConnectFail RsnOther, m_seq m, c_marshal g), HsRefuse))
       else match m_hs m with
       | HsUndecodable | HsNoHandshakeKey => fail RsnOther
       | HsNoObjectKey =>
-          match m_val m with VRaise cc => validator_raised cc | VAccept _ => fail RsnOther end
+          match m_val m with
+          | VRaise cc => validator_raised cc | VAbort k => validator_aborted k | VAccept _ => fail RsnOther
+          end
       | HsFull o =>
           match m_val m with
           | VRaise cc => validator_raised cc
+          | VAbort k => validator_aborted k
           | VAccept s =>
               match o with
               | ObjUnknown => fail RsnUnknownObject
               | ObjBad => fail RsnOther
-              | ObjKnown => if s then (Some (RConnectOk, m_seq m, m_ser m), true) else fail RsnOther
+              | ObjKnown => if s then (Some (RConnectOk, m_seq m, m_ser m), HsAccept) else fail RsnOther
               end
           end
       end
+    end
+  end.
+
+(* the same call with denied_reason set (SocketServer_Threadpool.events -> denyConnection):
+   the message is still read and framed first; a well-framed message of an accepted type is
+   refused with the reason, through the marshal serializer, under the request's sequence number *)
+Definition hs_denied (g : cfg) (m : msg) : option (rkind * N * N) :=
+  let fail_early := Some (RConnectFail RsnOther, 0%N, c_marshal g) in
+  match m_wf m with
+  | WfBadHeader => fail_early
+  | _ =>
+    if negb (memN (m_type m) (c_first_types g)) then fail_early
+    else match m_wf m with
+    | WfBadBody => fail_early
+    | _ => Some (RConnectFail RsnDenied, m_seq m, c_marshal g)
     end
   end.
 
@@ -123,14 +169,45 @@ Definition reply_outs (c : nat) (r : option (rkind * N * N)) : list out :=
 (* the transport server enters the request loop / registers the connection only if the gate holds *)
 Definition gated (g : cfg) (sty : servertype) : bool := c_gate g sty && c_ok_only g.
 
-Definition step_first (g : cfg) (sty : servertype) (c : nat) (m : msg) : cstate * list out :=
-  let '(r, acc) := hs_result g m in
-  if acc then (Accepted, reply_outs c r)
-  else if gated g sty then (Closed, reply_outs c r ++ [SockClosed c])
-  else (Accepted, reply_outs c r).
+Definition denied_applies (sty : servertype) (e : event) : bool :=
+  match sty with Thread => e_denied e | Multiplex => false end.
 
-(* ---- every later message: Daemon.handleRequest inside the transport server's loop ---- *)
-Definition step_later (g : cfg) (c : nat) (m : msg) : cstate * list out :=
+(* result of the first event: new state of the connection, outputs, and whether the daemon's
+   request loop ended (multiplex server, BaseException out of the validator) *)
+Definition step_first (g : cfg) (sty : servertype) (e : event) : cstate * list out * bool :=
+  let c := e_conn e in
+  let refused (r : option (rkind * N * N)) :=
+    if gated g sty then (Closed, reply_outs c r ++ [SockClosed c], false)
+    else (Accepted, reply_outs c r, false) in
+  if denied_applies sty e then
+    (* denyConnection: _handshake(denied_reason=...), then the socket is closed, whatever it returned *)
+    match e_in e with
+    | InMsg m => (Closed, reply_outs c (hs_denied g m) ++ [SockClosed c], false)
+    | InPeerGone => (Closed, [SockClosed c], false)
+    | InSilence => (Closed, [Reply c (RConnectFail RsnOther) 0%N (c_marshal g); SockClosed c], false)
+    end
+  else
+    match e_in e with
+    | InPeerGone => refused None
+    | InSilence => refused (Some (RConnectFail RsnOther, 0%N, c_marshal g))
+    | InMsg m =>
+        match hs_result g m with
+        | (r, HsAccept) => (Accepted, reply_outs c r, false)
+        | (r, HsRefuse) => refused r
+        | (_, HsAbort kbd) =>
+            (* thread server: the exception kills the worker thread, which keeps the job and its socket.
+               multiplex server: it leaves events(); a KeyboardInterrupt is caught by loop() ("stopping on break
+               signal"), the connection object is dropped and its destructor closes the socket; any other class
+               leaves requestLoop towards the embedding program with the connection still referenced *)
+            match sty with
+            | Thread => (Abandoned, [], false)
+            | Multiplex => if kbd then (Closed, [SockClosed c], true) else (Abandoned, [], true)
+            end
+        end
+    end.
+
+(* ---- every later event: Daemon.handleRequest inside the transport server's loop ---- *)
+Definition step_later_msg (g : cfg) (c : nat) (m : msg) : cstate * list out :=
   let closed := (Closed, [SockClosed c]) in
   let rep k := if m_oneway m then [] else [Reply c k (m_seq m) (m_ser m)] in
   match m_wf m with
@@ -146,12 +223,22 @@ Definition step_later (g : cfg) (c : nat) (m : msg) : cstate * list out :=
       | CpFail DfKeep => (Accepted, rep RError)
       | CpFail DfCloseReply => (Closed, rep RError ++ [SockClosed c])
       | CpFail DfCloseSilent => closed
-      | CpCall false _ _ => (Accepted, rep RError)
-      | CpCall true MUnknown _ => (Accepted, rep RError)
-      | CpCall true MReturns tok => (Accepted, Exec c tok :: rep RResult)
-      | CpCall true MRaises tok => (Accepted, Exec c tok :: rep RError)
+      | CpCall false _ _ _ => (Accepted, rep RError)
+      | CpCall true _ MUnknown _ => (Accepted, rep RError)
+      | CpCall true t MReturns tok => (Accepted, Exec c t tok :: rep RResult)
+      | CpCall true t MRaises tok => (Accepted, Exec c t tok :: rep RError)
       end
     end
+  end.
+
+Definition step_later (g : cfg) (sty : servertype) (c : nat) (i : input) : cstate * list out :=
+  match i with
+  | InMsg m => step_later_msg g c m
+  | InPeerGone => (Closed, [SockClosed c])
+  | InSilence =>
+      (* thread server: the worker's blocking read times out; multiplex server: an idle registered
+         connection is simply not selected *)
+      match sty with Thread => (Closed, [SockClosed c]) | Multiplex => (Accepted, []) end
   end.
 
 (* ---- all connections ---- *)
@@ -159,13 +246,16 @@ Definition conns := nat -> cstate.
 Definition init : conns := fun _ => NotHandshaken.
 Definition upd (st : conns) (c : nat) (s : cstate) : conns :=
   fun c' => if Nat.eqb c' c then s else st c'.
+Definition all_abandoned : conns := fun _ => Abandoned.
 
 Definition step (g : cfg) (sty : servertype) (st : conns) (e : event) : conns * list out :=
   let c := e_conn e in
   match st c with
-  | Closed => (st, [])
-  | NotHandshaken => let '(s', o) := step_first g sty c (e_msg e) in (upd st c s', o)
-  | Accepted => let '(s', o) := step_later g c (e_msg e) in (upd st c s', o)
+  | Closed | Abandoned => (st, [])
+  | NotHandshaken =>
+      let '(s', o, kill) := step_first g sty e in
+      (upd (if kill then all_abandoned else st) c s', o)
+  | Accepted => let '(s', o) := step_later g sty c (e_in e) in (upd st c s', o)
   end.
 
 Fixpoint final (g : cfg) (sty : servertype) (st : conns) (evs : list event) : conns :=
@@ -190,12 +280,30 @@ Definition outs_of (g : cfg) (sty : servertype) (pre : list event) (e : event) :
 
 (* ---- vocabulary of the theorems ---- *)
 (* the property's notion of a completed handshake, stated on the input alone *)
-Definition is_accepted_connect (g : cfg) (m : msg) : bool :=
+Definition is_accepted_msg (g : cfg) (m : msg) : bool :=
   (m_type m =? c_connect g)%N &&
   match m_wf m with WfOk => true | _ => false end &&
   m_ser_known m &&
   match m_hs m with HsFull ObjKnown => true | _ => false end &&
   match m_val m with VAccept true => true | _ => false end.
+
+Definition is_accepted_connect (g : cfg) (sty : servertype) (e : event) : bool :=
+  negb (denied_applies sty e) &&
+  match e_in e with InMsg m => is_accepted_msg g m | _ => false end.
+
+(* the first event makes the validator raise a BaseException-only class (and the code does not contain it) *)
+Definition validator_aborts (g : cfg) (sty : servertype) (e : event) : bool :=
+  negb (denied_applies sty e) && q_abort_unanswered g &&
+  match e_in e with
+  | InMsg m => validator_reached g m && match m_val m with VAbort _ => true | _ => false end
+  | _ => false
+  end.
+
+Definition peer_gone (e : event) : bool := match e_in e with InPeerGone => true | _ => false end.
+
+(* connection c is new and the daemon is serving *)
+Definition fresh (g : cfg) (sty : servertype) (pre : list event) (c : nat) : Prop :=
+  final g sty init pre c = NotHandshaken.
 
 Fixpoint list_eqbN (a b : list N) : bool :=
   match a, b with
@@ -210,6 +318,3 @@ Definition cfg_ok (g : cfg) : bool :=
   list_eqbN (c_later_types g) [c_invoke g; c_ping g] &&
   negb (c_invoke g =? c_ping g)%N &&
   c_gate g Thread && c_gate g Multiplex && c_ok_only g.
-
-Definition is_reply_or_exec (o : out) : bool :=
-  match o with Reply _ _ _ _ => true | Exec _ _ => true | SockClosed _ => false end.
